@@ -166,6 +166,13 @@ func (h *Handler) Handle(cx *layer4.Connection, next layer4.Handler) error {
 	// Set conn as a custom variable on cx.
 	cx.SetVar("l4.proxy_protocol.conn", conn)
 
+	// Placeholders must see the addresses received by the PROXY protocol,
+	// just like RemoteAddr() and LocalAddr() of the wrapped connection do.
+	if repl, ok := cx.Context.Value(layer4.ReplacerCtxKey).(*caddy.Replacer); ok {
+		repl.Set("l4.conn.remote_addr", conn.RemoteAddr())
+		repl.Set("l4.conn.local_addr", conn.LocalAddr())
+	}
+
 	return next.Handle(cx.Wrap(conn))
 }
 
